@@ -190,8 +190,16 @@ theorem setRunIdP_good (ver : Bytes) {c : Ctl} {X : Int} {d : Nat} {s : RunIdStP
     · exact h1.symm.trans hr
     · exact absurd (h2.symm.trans hr) (fun e => G.ctl.hne e.symm)
     · exact absurd hr h3
-  · rw [if_neg hr]
+  · rw [if_neg hr, if_neg G.ctl.key0]
     exact retryLoopP_good ver (as.take 3) G hp hi hr (fun a ha => has a (List.mem_of_mem_take ha))
+
+/-- an output without bookkeeping (`CheckpointName == ""`) issues NO request: the target is untouched, the field follows -/
+theorem setRunIdP_no_name (ver : Bytes) (s : RunIdStP) (id : Bytes) (as : List AttemptP) :
+    (setRunIdP ver [] s id as).1.t = s.t ∧ (setRunIdP ver [] s id as).2 = true ∧ (setRunIdP ver [] s id as).1.runId = id := by
+  unfold setRunIdP
+  by_cases h : s.runId = id
+  · rw [if_pos h]; exact ⟨rfl, rfl, h⟩
+  · rw [if_neg h, if_pos rfl]; exact ⟨rfl, rfl, rfl⟩
 
 /-- the steps: a failover whenever the HASH maps the master id to the key (the position is readable under the ids
     reported after it), its id never used on this target; attempts with any fate -/
